@@ -615,43 +615,45 @@ func ruleGTokens(w *World, r *Report) {
 	}
 	// canBeFunc computed after skipping space
 	found := false
-	eachInstr(g.NextItem, false, func(_ *ssa.Function, in ssa.Instruction) {
-		st, ok := in.(*ssa.Store)
-		if !ok {
-			return
-		}
-		fa, ok := st.Addr.(*ssa.FieldAddr)
-		if !ok || !isRecv(fa.X) {
-			return
-		}
-		if b, ok := fieldOfAddr(fa).Type().(*types.Basic); !ok || b.Kind() != types.Bool {
-			return
-		}
-		bo, ok := st.Val.(*ssa.BinOp)
-		if !ok || bo.Op != token.EQL {
-			return
-		}
-		k, ok := constInt(bo.Y)
-		if !ok || k != '(' {
-			return
-		}
-		found = true
-		// nearest preceding call in the block
-		var prev *ssa.Function
-		for _, x := range st.Block().Instrs {
-			if x == ssa.Instruction(st) {
-				break
+	for _, fam := range w.scannerFamily(g) {
+		eachInstr(fam, false, func(_ *ssa.Function, in ssa.Instruction) {
+			st, ok := in.(*ssa.Store)
+			if !ok {
+				return
 			}
-			if c, ok := x.(*ssa.Call); ok {
-				prev = c.Call.StaticCallee()
+			fa, ok := st.Addr.(*ssa.FieldAddr)
+			if !ok || !isRecv(fa.X) {
+				return
 			}
-		}
-		if prev != nil && w.isSpaceSkipper(prev) {
-			r.ok("G-TOKENS", "space-before-paren", w.instrPos(st), "white space between a name and '(' is skipped before deciding that the name is a function call")
-		} else {
-			r.bad("G-TOKENS", "space-before-paren", w.instrPos(st), "the '(' look-ahead after a name is done without skipping white space first: `f (x)` and `f(x)` parse differently")
-		}
-	})
+			if b, ok := fieldOfAddr(fa).Type().(*types.Basic); !ok || b.Kind() != types.Bool {
+				return
+			}
+			bo, ok := st.Val.(*ssa.BinOp)
+			if !ok || bo.Op != token.EQL {
+				return
+			}
+			k, ok := constInt(bo.Y)
+			if !ok || k != '(' {
+				return
+			}
+			found = true
+			// nearest preceding call in the block
+			var prev *ssa.Function
+			for _, x := range st.Block().Instrs {
+				if x == ssa.Instruction(st) {
+					break
+				}
+				if c, ok := x.(*ssa.Call); ok {
+					prev = c.Call.StaticCallee()
+				}
+			}
+			if prev != nil && w.isSpaceSkipper(prev) {
+				r.ok("G-TOKENS", "space-before-paren", w.instrPos(st), "white space between a name and '(' is skipped before deciding that the name is a function call")
+			} else {
+				r.bad("G-TOKENS", "space-before-paren", w.instrPos(st), "the '(' look-ahead after a name is done without skipping white space first: `f (x)` and `f(x)` parse differently")
+			}
+		})
+	}
 	if !found {
 		r.bad("G-TOKENS", "space-before-paren", pos, "no '(' look-ahead after a name found")
 	}
@@ -674,35 +676,95 @@ func (w *World) isSpaceSkipper(f *ssa.Function) bool {
 	return found && len(cfgSCCs(f)) > 0
 }
 
+// scannerFamily: nextItem and the scanner methods reachable from it.
+func (w *World) scannerFamily(g *Grammar) []*ssa.Function {
+	seen := map[*ssa.Function]bool{}
+	var out []*ssa.Function
+	var visit func(f *ssa.Function)
+	visit = func(f *ssa.Function) {
+		if seen[f] {
+			return
+		}
+		seen[f] = true
+		out = append(out, f)
+		for _, c := range w.pkgCallees(f) {
+			if c.Signature.Recv() != nil && typeName(c.Signature.Recv().Type()) == g.ScannerT.Obj().Name() {
+				visit(c)
+			}
+		}
+	}
+	visit(g.NextItem)
+	return out
+}
+
+// evalPredOn: the value of a pure rune predicate on a constant, by constant
+// propagation through its body (range tables are read off their literals).
+func (w *World) evalPredOn(pred *ssa.Function, c rune) (bool, error) {
+	tabs := w.rangeTables()
+	hooks := AHooks{}
+	hooks.Global = func(st *AState, gl *ssa.Global) *AObj {
+		if v, ok := gl.Object().(*types.Var); ok {
+			if t, ok := tabs[v]; ok {
+				o := st.newObj(gl.Type().(*types.Pointer).Elem(), gl)
+				o.Fields[0] = AVal{Kind: avUnknown, Any: t}
+				return o
+			}
+		}
+		return nil
+	}
+	ai := w.newInterp(hooks)
+	outs := ai.Exec(pred, []AVal{aInt(int64(c))}, nil, newAState())
+	res, have := false, false
+	for _, o := range outs {
+		if o.Cut || o.Panicked {
+			return false, fmt.Errorf("predicate %s cannot be followed for %q", pred.Name(), c)
+		}
+		b, ok := o.Ret.Bool()
+		if !ok {
+			return false, fmt.Errorf("predicate %s does not reduce to a constant for %q", pred.Name(), c)
+		}
+		if have && b != res {
+			return false, fmt.Errorf("predicate %s has two values for %q", pred.Name(), c)
+		}
+		res, have = b, true
+	}
+	if !have {
+		return false, fmt.Errorf("predicate %s has no outcome for %q", pred.Name(), c)
+	}
+	return res, nil
+}
+
 func (w *World) checkNameChars(r *Report, g *Grammar) {
-	// the predicate guarding the name branch of nextItem: package func(rune) bool
-	// used as the loop guard of the name scanner
-	var pred *types.Func
-	eachInstr(g.NextItem, false, func(_ *ssa.Function, in ssa.Instruction) {
-		if st, ok := in.(*ssa.Store); ok {
-			if fa, ok := st.Addr.(*ssa.FieldAddr); ok && fieldOfAddr(fa) == g.NameField {
-				if c, ok := st.Val.(*ssa.Call); ok {
-					if sc := c.Call.StaticCallee(); sc != nil {
-						if p := w.condConsumer(sc, map[*ssa.Function]bool{g.NextChar: true}); p != nil {
-							pred, _ = p.Object().(*types.Func)
+	// the predicate guarding the name scanner: the conditional-consumer
+	// predicate of the scanner method whose result is stored in the name field
+	var pred *ssa.Function
+	for _, fam := range w.scannerFamily(g) {
+		eachInstr(fam, false, func(_ *ssa.Function, in ssa.Instruction) {
+			if st, ok := in.(*ssa.Store); ok {
+				if fa, ok := st.Addr.(*ssa.FieldAddr); ok && fieldOfAddr(fa) == g.NameField {
+					if c, ok := st.Val.(*ssa.Call); ok {
+						if sc := c.Call.StaticCallee(); sc != nil {
+							if p := w.condConsumer(sc, map[*ssa.Function]bool{g.NextChar: true}); p != nil {
+								pred = p
+							}
 						}
 					}
 				}
 			}
-		}
-	})
+		})
+	}
 	if pred == nil {
 		r.bad("ANCHOR", "G-TOKENS:namechar", "", "name-character predicate not found")
 		return
 	}
-	tabs := w.rangeTables()
 	allowed := map[rune]bool{'-': true, '.': true, '_': true}
 	var badc []string
+	pos := w.pos(pred.Pos())
 	for c := rune(0); c < 128; c++ {
 		isAlnum := c >= '0' && c <= '9' || c >= 'a' && c <= 'z' || c >= 'A' && c <= 'Z'
-		v, err := w.evalRunePred(pred, c, tabs, 0)
+		v, err := w.evalPredOn(pred, c)
 		if err != nil {
-			r.undec("G-TOKENS", "namechar", w.pos(w.Decls[pred].Pos()), "cannot interpret the name-character predicate: "+err.Error())
+			r.undec("G-TOKENS", "namechar", pos, "cannot interpret the name-character predicate: "+err.Error())
 			return
 		}
 		if v && !isAlnum && !allowed[c] {
@@ -712,7 +774,6 @@ func (w *World) checkNameChars(r *Report, g *Grammar) {
 			badc = append(badc, fmt.Sprintf("rejects %q", c))
 		}
 	}
-	pos := w.pos(w.Decls[pred].Pos())
 	if len(badc) > 0 {
 		r.bad("G-TOKENS", "namechar", pos, fmt.Sprintf("%s accepts/rejects the wrong ASCII characters: %v — an operator character glued to a name becomes part of the name, so removing optional white space changes the meaning (a * 2 vs a*2)", pred.Name(), badc))
 	} else {
